@@ -573,7 +573,7 @@ def main():
     rep = Report(prop)
     findings = load_findings()
     proof_ok, pinfo = coqcheck.proof_status(prop)
-    n = 6000 if thorough else 500
+    n = 200000 if thorough else 500
     results = []
     if pinfo.get('build_ok'):
         nproc = min(16, os.cpu_count() or 4)
@@ -583,7 +583,7 @@ def main():
             for part in pool.imap_unordered(_worker, jobs):
                 results.extend(part)
     results.sort(key=lambda r: r['idx'])
-    obad = leaf_oracle_check(sd, 60000 if thorough else 6000)
+    obad = leaf_oracle_check(sd, 300000 if thorough else 6000)
     if obad:
         rep.violation('round(x, n) disagrees with exact decimal rounding: round(%r, %r) = %r, oracle %r' % (obad[0][0], obad[0][1], obad[0][3], obad[0][2]),
                       {'cases': [list(map(repr, b)) for b in obad[:5]]})
@@ -628,7 +628,7 @@ def main():
     cov = {'obligations': nth, 'discharged': nth if proof_ok else 0,
            'checker_cmd': 'cd /verif && ./build.sh && cd coq && coqc -Q Base Klepto -Q Cache Klepto -Q Keys Klepto -Q Store Klepto -Q Props Klepto Props/C12.v',
            'trusted_base': ['Coq 8.16.1 kernel', 'axioms: %s' % (', '.join(pinfo.get('axioms', [])) or 'none (Closed under the global context x%d)' % pinfo.get('closed', 0)),
-                            'leaf rounding oracle: exact decimal arithmetic (decimal module), checked against float.__round__ on %d doubles this run' % (60000 if thorough else 6000),
+                            'leaf rounding oracle: exact decimal arithmetic (decimal module), checked against float.__round__ on %d doubles this run' % (300000 if thorough else 6000),
                             'hand-written structure-walk model coq/Keys/Rounding.v tied to klepto.rounding by differential comparison'],
            'theorems': pinfo.get('theorems', []), 'print_assumptions': pinfo.get('print_assumptions', ''),
            'evaluations': len(results), 'distinct_nontrivial': len([r for r in results if r.get('nfloats', 0) >= 1]),
